@@ -22,7 +22,7 @@ import (
 func TestMain(m *testing.M) {
 	kit.Main(m, "C11", "exploration",
 		"both secure-memory implementations with the REAL memory primitives; the kernel's view of the pages is read from /proc/self/smaps (permissions, VmFlags lo = mlocked, dd = excluded from core dumps) for the address seen inside the callback. "+
-			"(1) rapid sequential programs: sizes 1 byte .. 3 pages +/- 1, New / CreateRandom, WithBytes, WithBytesFunc nested to depth 3, Reader.Read with odd buffer sizes, a Reader partly consumed before Close and read again after it, a read on the last reference to an unclosed secret with garbage collections forced during the callback, IsClosed, Close, use after Close; page state sampled inside every callback, between callbacks and after Close. "+
+			"(1) rapid sequential programs: sizes 1 byte .. 3 pages +/- 1, New / CreateRandom, WithBytes, WithBytesFunc nested to depth 3, Reader.Read with odd buffer sizes, a Reader partly consumed before Close and read again after it, a read on the last reference to an unclosed secret with garbage collections forced during the callback, a callback that panics and is recovered by the caller, IsClosed, Close, use after Close; page state sampled inside every callback, between callbacks and after Close. "+
 			"(2) rapid concurrent cases: 2-4 readers and 1-2 closers on one secret with a delay plan (1-3 pauses of 0.2-3 ms) over the statement-level yield points the overlay inserts into the two secret.go files; reader goroutines run with SetPanicOnFault so a touch of a PROT_NONE / unmapped page is a recorded violation. "+
 			"Oracle: r--p + locked + dontdump while at least one reader is inside (never writable), ---p + locked + dontdump when idle, unmapped (or at least no longer locked) after Close; readers see exactly the original bytes; the source slice of New is zero afterwards; Close returns only when no callback is running; "+
 			"an access after Close returned gives an error and does not run the callback; IsClosed agrees with the model; no fault, no hang. One evaluation = one program. "+
@@ -166,6 +166,19 @@ func TestSequential(t *testing.T) {
 		var addr uintptr
 		closed := false
 		overlapped, closeInside := false, false
+		panicked := false
+		// closeGuarded: a Close that never returns (a reader count that can no longer reach zero) is a violation, not a slow test
+		closeGuarded := func() error {
+			done := make(chan error, 1)
+			go func() { done <- s.Close() }()
+			select {
+			case e := <-done:
+				return e
+			case <-time.After(20 * time.Second):
+				kit.Abort(fmt.Sprintf("C11 violated [%s, %d bytes]: Close did not return within 20s although no reader callback is running (callback panicked earlier: %v)\n  program: %s", impl, size, panicked, strings.Join(trace, "; ")))
+				return nil
+			}
+		}
 		// first access fixes the address and (for CreateRandom) the expected content
 		if e := s.WithBytes(func(b []byte) error {
 			addr = uintptr(unsafe.Pointer(&b[0]))
@@ -187,7 +200,7 @@ func TestSequential(t *testing.T) {
 		}
 		n := rapid.IntRange(1, 8).Draw(t, "ops")
 		for i := 0; i < n; i++ {
-			op := rapid.SampledFrom([]string{"WithBytes", "WithBytesFunc", "Nested2", "Nested3", "Reader", "IsClosed", "Close", "Close", "ReadAfter", "ReaderAcrossClose", "LastReferenceRead"}).Draw(t, "op")
+			op := rapid.SampledFrom([]string{"WithBytes", "WithBytesFunc", "Nested2", "Nested3", "Reader", "IsClosed", "Close", "Close", "ReadAfter", "ReaderAcrossClose", "LastReferenceRead", "PanicInCallback"}).Draw(t, "op")
 			trace = append(trace, op)
 			ran := 0
 			var cbErr string
@@ -258,6 +271,26 @@ func TestSequential(t *testing.T) {
 						bad("Reader returned other bytes than the secret's content")
 					}
 				}
+			case "PanicInCallback":
+				// the callback panics and the application recovers: the secret is back to idle (no reader
+				// is counted, pages inaccessible) and stays usable
+				if closed {
+					continue
+				}
+				viaFunc := rapid.Bool().Draw(t, "viaFunc")
+				func() {
+					defer func() { _ = recover() }()
+					if viaFunc {
+						_, _ = s.WithBytesFunc(func(b []byte) ([]byte, error) { panic("application panic inside the callback") })
+					} else {
+						_ = s.WithBytes(func(b []byte) error { panic("application panic inside the callback") })
+					}
+				}()
+				if msg := checkIdle(addr, "after a callback panicked and the caller recovered"); msg != "" {
+					bad("%s", msg)
+				}
+				panicked = true
+				continue
 			case "ReaderAcrossClose":
 				// a Reader obtained (and partly consumed) before Close hands out nothing afterwards
 				if closed {
@@ -272,7 +305,7 @@ func TestSequential(t *testing.T) {
 				if !bytes.Equal(first[:k], want[:k]) {
 					bad("Reader returned other bytes than the secret's content")
 				}
-				if e := s.Close(); e != nil {
+				if e := closeGuarded(); e != nil {
 					bad("Close returned %v", e)
 				}
 				closed = true
@@ -301,7 +334,7 @@ func TestSequential(t *testing.T) {
 				}
 				continue
 			case "Close":
-				if e := s.Close(); e != nil {
+				if e := closeGuarded(); e != nil {
 					bad("Close returned %v", e)
 				}
 				// the address is only known to be this secret's right after the Close that released it
@@ -336,7 +369,7 @@ func TestSequential(t *testing.T) {
 			}
 		}
 		if !closed {
-			if e := s.Close(); e != nil {
+			if e := closeGuarded(); e != nil {
 				bad("Close returned %v", e)
 			}
 			if msg := checkClosed(addr); msg != "" {
